@@ -69,6 +69,10 @@ func main() {
 		fmt.Println(strings.Join(ids, " "))
 	case "explore-bounds":
 		exploreBounds(repo)
+	case "checkall":
+		// triage only (tools/try_wt.sh): one load, every property evaluated on it, one verdict line each. The
+		// registered checks always run one property per process.
+		os.Exit(runAll(tier, repo, verif, pos))
 	case "check":
 		if len(pos) != 1 {
 			usage()
@@ -145,4 +149,43 @@ func runCheck(id, tier, repo, verif string, seed int, only *Obligation) int {
 		selfTestBenign(id, verif, repo, r)
 	}
 	return r.finish(verif, t0, seed, strings.Join(os.Args, " "), cfgNames)
+}
+
+// runAll loads the tree once and evaluates the named properties (all of them by default) on it.
+func runAll(tier, repo, verif string, ids []string) int {
+	if len(ids) == 0 {
+		for id := range props {
+			ids = append(ids, id)
+		}
+	}
+	sort.Strings(ids)
+	c, err := load(repo, loadOpts{needSSA: true})
+	if err != nil {
+		fmt.Printf("ALL load error: %v\n", err)
+		return 2
+	}
+	c.Tier = tier
+	rc := 0
+	for _, id := range ids {
+		pd := props[id]
+		if pd == nil {
+			continue
+		}
+		t0 := time.Now()
+		r := newReport(id, tier)
+		func() {
+			defer func() {
+				if p := recover(); p != nil {
+					r.cerr(id+".panic", c.Config, "analysis panicked: %v\n%s", p, debug.Stack())
+				}
+			}()
+			pd.run(c, r)
+		}()
+		code := r.finish(verif, t0, 0, "checkall", []string{c.Config})
+		fmt.Printf("=== %s rc=%d\n", id, code)
+		if code != 0 {
+			rc = 1
+		}
+	}
+	return rc
 }
